@@ -15,6 +15,32 @@ from .loader import AnalysisError, Program
 from .report import Ctx, finish
 
 
+def _unresolvable_names(ctx, pid):
+    """D0, common to every property: no function of the modules this
+    property is anchored in reads a name that resolves nowhere (CPython's own
+    scope analysis).  Such a read raises NameError on every path through it -
+    in a constructor, a handler or a codec that means the property fails for
+    every input that takes the path - and a test suite only notices on the
+    paths it happens to run."""
+    from .names import unresolvable_names
+    from .scope import modules_of
+    n = 0
+    for mname in modules_of(pid):
+        m = ctx.prog.modules.get(mname)
+        if m is None:
+            continue
+        n += 1
+        bad = unresolvable_names(m.src, m.path)
+        ctx.ob('%s.D0' % pid, mname, 'names-resolve', not bad,
+               '%s: %s read(s) a name that is neither local, nor of an '
+               'enclosing function, nor module-level, nor a builtin: '
+               'NameError on every path that reaches it'
+               % (m.relpath, ', '.join('%s reads %r' % (q, nm)
+                                       for q, nm, _ in bad[:4])),
+               nontrivial=False)
+    return n
+
+
 def main(argv=None):
     ap = argparse.ArgumentParser(prog='check')
     ap.add_argument('pid')
@@ -38,6 +64,7 @@ def main(argv=None):
         prog = Program(a.src)
         ctx = Ctx(pid, a.tier, prog, seed)
         mod.run(ctx)
+        _unresolvable_names(ctx, pid)
         if a.tier == 'thorough':
             if hasattr(mod, 'run_thorough'):
                 mod.run_thorough(ctx)
